@@ -33,7 +33,7 @@ Fixpoint xtext (deep : bool) (x : jx) : string :=
       if is_compound o then
         let body := str_join (jop_sep o) (elems_text args) in
         if deep then ("(" ++ body ++ ")")%string else body
-      else str_join (jop_sep o) (opnds_text (is_ne o) args)
+      else str_join (jop_sep o) (opnds_text (neg_flag o args) args)
   | XCall h args => (head_text h ++ "(" ++ str_join ", " (args_text args) ++ ")")%string
   end
 with elems_text (l : jxs) : list string :=
@@ -41,7 +41,11 @@ with elems_text (l : jxs) : list string :=
 with opnds_text (neg : bool) (l : jxs) : list string :=
   match l with
   | XNil => []
-  | XCons x l' => (match x with XOp _ _ => wrap_text neg (xtext false x) | _ => xtext false x end) :: opnds_text neg l'
+  | XCons x l' => (match x with
+                   | XOp _ _ => wrap_text neg (xtext false x)
+                   | XNum _ => xtext false x
+                   | _ => if neg then wrap_text true (xtext false x) else xtext false x
+                   end) :: opnds_text neg l'
   end
 with args_text (l : jxs) : list string :=
   match l with XNil => [] | XCons x l' => xtext false x :: args_text l' end.
@@ -66,11 +70,11 @@ Definition wf_head (h : chead) : bool :=
 
 Definition first_is_xop (l : jxs) : bool := match l with XCons (XOp _ _) _ => true | _ => false end.
 
-(* well-formed typed trees: what the theorem quantifies over.  Excluded, each with
-   its own refutation lemma in C18Proof.v: a join operator with one operand
-   (finding D14; the one-operand "not" over an operator object is the negation
-   and stays in), a "not" with several operands one of which is an operator
-   object (D13), and / or nested more than 1000 deep (the translator's own limit). *)
+(* well-formed typed trees: what the theorem quantifies over.  Every join operator
+   has two or more operands, "not" one or more (its lone operand is negated), and / or
+   two or more objects - the translator rejects anything else; plain atoms are
+   well-formed, numbers fit 64 bits, and / or are nested at most 1000 deep (the
+   translator's own limit is 1024). *)
 Fixpoint wfj (x : jx) : bool :=
   match x with
   | XPlain a => wf_atom a
@@ -84,7 +88,7 @@ Fixpoint wfj (x : jx) : bool :=
       wfjs args && Nat.leb (cnest (XOp o args)) 1000 &&
       (if is_compound o then Nat.leb 2 (jxs_len args) && all_obj args
        else match o with
-            | JNe => (Nat.eqb (jxs_len args) 1 && first_is_xop args) || (Nat.leb 2 (jxs_len args) && negb (any_xop args))
+            | JNe => Nat.leb 1 (jxs_len args)
             | _ => Nat.leb 2 (jxs_len args)
             end)
   | XCall h args => wf_head h && wfjs args
@@ -99,14 +103,22 @@ Lemma bex_join : forall o v d, is_compound o = false ->
   bex (JObj [(jop_key o, v)]) d =
   if 1024 <? d then Err else
   match v with
-  | JArr [] => Err
-  | JArr l => match map_res (operand_text bex false (is_ne o)) l with
-              | Ok es => Ok (str_join (jop_sep o) es, false)
-              | Err => Err | Panic => Panic
+  | JArr l => match l with
+              | [] => Err
+              | _ :: _ =>
+                  if Nat.eqb (List.length l) 1 && negb (is_ne o) then Err else
+                  match map_res (operand_text bex false (is_ne o && Nat.eqb (List.length l) 1)) l with
+                  | Ok es => Ok (str_join (jop_sep o) es, false)
+                  | Err => Err | Panic => Panic
+                  end
               end
   | _ => Err
   end.
 Proof. intros o v d H. destruct o; try discriminate; reflexivity. Qed.
+
+Lemma match_nonnil : forall {A B : Type} (l : list A) (e b : B), l <> [] ->
+  match l with [] => e | _ :: _ => b end = b.
+Proof. intros A B [|x l] e b H; [contradiction|reflexivity]. Qed.
 
 Lemma bex_comp : forall o v d, is_compound o = true ->
   bex (JObj [(jop_key o, v)]) d =
@@ -185,7 +197,12 @@ Proof.
     + rewrite bex_join by assumption. destruct (Z.ltb_spec 1024 d); [lia|].
       assert (Hne : xs_json args <> []).
       { destruct args; [|discriminate]. destruct o; cbn in Hshape; discriminate. }
-      rewrite Hop. destruct (xs_json args); [contradiction|reflexivity].
+      assert (Hflag : is_ne o && Nat.eqb (jxs_len args) 1 = neg_flag o args).
+      { destruct o; try reflexivity. destruct args as [|? [|? ?]]; reflexivity. }
+      assert (Hlone : Nat.eqb (jxs_len args) 1 && negb (is_ne o) = false).
+      { destruct o; try discriminate; cbn [is_ne negb]; try apply andb_false_r;
+          rewrite andb_true_r; apply Nat.leb_le in Hshape; apply Nat.eqb_neq; lia. }
+      rewrite (match_nonnil _ _ _ Hne), xs_json_length, Hlone, Hflag, Hop. reflexivity.
   - (* call *)
     cbn [wfj] in H0. apply andb_true_iff in H0 as [Hh Hl]. destruct (H Hl) as (_ & _ & Ha). destruct H2 as [D1 D2].
     cbn [x_json xtext nowrap]. rewrite bex_call. destruct (Z.ltb_spec 1024 d); [lia|]. rewrite Ha. reflexivity.
@@ -412,9 +429,8 @@ Proof.
       pose proof (XT_join o _ _ He Hne) as J.
       destruct deep; [|exact J].
       eapply XT_ext; [|apply (XT_wrap false _ _ J)]. intros k. reflexivity.
-    + assert (Hne : xs_opnds (match o with JNe => true | _ => false end) args <> []).
+    + assert (Hne : xs_opnds (neg_flag o args) args <> []).
       { destruct args; [|discriminate]. destruct o; cbn in Hshape; discriminate. }
-      replace (match o with JNe => true | _ => false end) with (is_ne o) in * by reflexivity.
       apply XT_join; auto.
   - (* call *)
     apply andb_true_iff in H0 as [Hh Hl]. destruct (H Hl) as (_ & _ & Ha).
@@ -424,8 +440,10 @@ Proof.
     repeat split.
     + cbn [elems_text xs_elems]. constructor; [apply H; assumption|assumption].
     + intros neg. cbn [opnds_text xs_opnds]. constructor; [|apply Hop].
-      destruct x; try (apply H; assumption).
-      eapply XT_ext; [|apply (XT_wrap neg _ _ (H Hx false))]. intros k. destruct neg; reflexivity.
+      assert (Hw : forall ng, XT (wrap_text ng (xtext false x)) (etoks (EParen ng (x_top false x)))).
+      { intros ng. eapply XT_ext; [|apply (XT_wrap ng _ _ (H Hx false))]. intros k. destruct ng; reflexivity. }
+      destruct x; try (apply H; assumption); try (destruct neg; [apply Hw|apply H; assumption]).
+      apply Hw.
     + cbn [args_text xs_args elist_to_list]. constructor; [apply H; assumption|assumption].
 Qed.
 
@@ -723,11 +741,11 @@ Proof.
         eapply Forall_impl; [|exact He]. intros e [W L]. split; [assumption|].
         destruct o; try discriminate; cbn; lia. }
       split; [intros [|]; cbn [wf_expr]; exact J|]. split; [cbn [wf_expr]; exact J|cbn [elevel]; lia].
-    + assert (Hne : xs_opnds (match o with JNe => true | _ => false end) args <> []).
+    + assert (Hne : xs_opnds (neg_flag o args) args <> []).
       { destruct args; [|discriminate]. destruct o; cbn in Hshape; discriminate. }
       pose proof (jop_level o Ec) as Hlv.
-      assert (J : wf_expr (join_exprs (jop_op o) (xs_opnds (match o with JNe => true | _ => false end) args)) = true /\
-                  (elevel (join_exprs (jop_op o) (xs_opnds (match o with JNe => true | _ => false end) args)) <= op_level (jop_op o))%nat).
+      assert (J : wf_expr (join_exprs (jop_op o) (xs_opnds (neg_flag o args) args)) = true /\
+                  (elevel (join_exprs (jop_op o) (xs_opnds (neg_flag o args) args)) <= op_level (jop_op o))%nat).
       { apply join_wf; [assumption|lia|].
         eapply Forall_impl; [|apply Hop]. intros e [W L]. split; [assumption|lia]. }
       destruct J as [J1 J2]. split; [intros deep; exact J1|]. split; [exact J1|lia].
@@ -740,7 +758,7 @@ Proof.
     destruct (H0 Hl) as (He & Hop & Ha). repeat split.
     + cbn [xs_elems]. constructor; assumption.
     + intros neg. cbn [xs_opnds]. constructor; [|apply Hop].
-      destruct x; split; try reflexivity; apply Hw.
+      destruct x; try destruct neg; split; try reflexivity; apply Hw.
     + cbn [xs_args wf_args]. rewrite (Hw false), Ha. reflexivity.
 Qed.
 
@@ -757,7 +775,7 @@ Lemma rule_of_wf : forall r, wf_trule r = true -> wf_rule (rule_of r) = true.
 Proof.
   intros r H. unfold wf_trule in H. repeat (apply andb_true_iff in H as [H ?]).
   unfold wf_rule, rule_of. cbn [rname rdesc rsal rwhen rthen].
-  rewrite H, H3, desc_ok_quote_body. cbn [andb].
+  rewrite H, H3. cbn [andb].
   assert (Hc : wf_expr (cond_of (twhen r)) = true).
   { destruct (twhen r) as [e|x]; cbn [wf_jcond cond_of] in *; [assumption|].
     apply andb_true_iff in H2 as [Hw _]. apply (proj1 (proj1 x_top_wf x Hw) false). }
